@@ -397,7 +397,10 @@ func cmdTable() []creq {
 			c := T(clproto.Command_COMMAND_TYPE_JOIN)
 			jr := &cproto.JoinRequest{Id: "ghost-joiner", Address: "127.0.0.1:9", Voter: false}
 			if authorized {
-				jr = &cproto.JoinRequest{Id: e.follower.ID, Address: e.follower.RaftAddr, Voter: false}
+				// a non-voter that does not exist: it joins the configuration without
+				// changing the quorum (re-joining the real follower as non-voter would
+				// demote it); a second join of the same id and address is ignored
+				jr = &cproto.JoinRequest{Id: "ghost-read-replica", Address: "127.0.0.1:9", Voter: false}
 			}
 			c.Request = &clproto.Command_JoinRequest{JoinRequest: jr}
 			return c
